@@ -268,6 +268,17 @@ def run_cfg(ctx, p, cfg):
             rv = s["rv"]
             if rv["k"] == "agg" and rv.get("adt") == INTERVAL:
                 sinks[b] = (rv["variant"], g._rvalue(rv, frozenset(), 30, b))
+        # the variant may also be chosen as its constructor (`let make: fn(i64) -> _ = if .. { Interval::Second } ..; make(n)`):
+        # each edge that picks a constructor is a sink of that variant, carrying the argument of the one call through the pointer
+        for c in g.indirect_calls():
+            pl = c.t.get("func", {}).get("copy") or c.t.get("func", {}).get("move")
+            if not pl or pl["p"] or not c.t.get("args"):
+                continue
+            for b, e in g.root_defs(pl["l"]):
+                e = strip(e, casts=False)
+                if e[0] == "cast" and "ReifyFnPointer" in str(e[1]) and strip(e[2])[0] == "fnref" and strip(e[2])[1].startswith(INTERVAL + "::"):
+                    var = strip(e[2])[1].rsplit("::", 1)[-1]
+                    sinks[b] = (var, ("agg", INTERVAL, var, (("0", g.expr(c.t["args"][0])),)))
         tab = tables.key_table(g, tests, list(sinks))
         for key, want in TIME_TABLE.items():
             vs = {sinks[s][0] for s in tab.get(key, [])}
